@@ -166,8 +166,24 @@ package yubiattest
 //@ # distinct serials give distinct strings: the alphabet has 16 distinct characters
 //@ lemma mhchar_injective(a int, b int): (0 <= a && a < 16 && 0 <= b && b < 16 && mhchar(a) == mhchar(b)) ==> a == b
 
-//@ # ---------------------------------------------------------------- C16: the lenient certificate parser (ASSUMED: its ASN.1 body is not verified)
-//@ func ParseCertificate(asn1Data)
+//@ # ---------------------------------------------------------------- C16: the lenient certificate parser
+//@ # ParseCertificate itself is verified (one ASN.1 decode, trailing data rejected, then the field-by-field conversion);
+//@ # the conversion parseCertificate (reflection-driven ASN.1 code) is ASSUMED through the contract below.
+//@ func parseCertificate(in)
 //@   flag logged
+//@   modifies all
 //@   ensures result1 != nil ==> result0 == nil
 //@   ensures result1 == nil ==> (result0 != nil && fresh(result0))
+
+//@ func ParseCertificate(asn1Data)
+//@   flag logged
+//@   modifies all
+//@   let u0 = old(calls(asn1.Unmarshal))
+//@   let q0 = old(calls(parseCertificate))
+//@   ensures result1 != nil ==> result0 == nil
+//@   ensures result1 == nil ==> (result0 != nil && fresh(result0))
+//@   ensures [one-decode-of-the-whole-input] calls(asn1.Unmarshal) == u0 + 1 && arg(asn1.Unmarshal, u0, 0) == asn1Data
+//@   ensures [decode-failure-surfaces] ret(asn1.Unmarshal, u0, 1) != nil ==> (result1 == ret(asn1.Unmarshal, u0, 1) && calls(parseCertificate) == q0)
+//@   ensures [trailing-data-is-rejected] (ret(asn1.Unmarshal, u0, 1) == nil && len(ret(asn1.Unmarshal, u0, 0)) > 0) ==> (result0 == nil && result1 != nil && calls(parseCertificate) == q0)
+//@   ensures [otherwise-the-conversion-decides] (ret(asn1.Unmarshal, u0, 1) == nil && len(ret(asn1.Unmarshal, u0, 0)) == 0) ==> (calls(parseCertificate) == q0 + 1 &&
+//@     result0 == ret(parseCertificate, q0, 0) && result1 == ret(parseCertificate, q0, 1))
